@@ -58,7 +58,9 @@ MANIFEST = {
             "naming rules, round trip byte for byte, validation, new_version, other extensions kept on instances, "
             "version-dependent validation compared with a built-in type, class tables unchanged when the caller mutates "
             "the properties object it passed, marking-definition accepts a definition object only of the class "
-            "registered under its definition_type.",
+            "registered under its definition_type, a registration passes / fails validation alike after a history and "
+            "alone in a fresh interpreter, construct vs parse with allow_custom and an undeclared property, every "
+            "declared property is in the registered class table.",
     "design_ref": "DESIGN.md 6/C19, 7 row C19; design_notes/C19.md",
     "note": "Trusted: Coq kernel + vm_compute; tr_regex (regex TEXTS are tied; the recognisers restate Python's re "
             "semantics by hand and are compared with re on generated names every run); tr_regflow (normalised statement "
@@ -332,6 +334,7 @@ def gen_history(run, idx, max_regs=8):
             names = ["x-" + base[0] + "-ext", "x-" + base[1] + "-ext", "x-" + base[2], EXTDEF + new_uuid(rng),
                      rng.choice(BUILTIN_NAMES[k])]
         pool[k] = names
+    pool["object"].append(rng.choice(["grouping", "note", "opinion", "incident", "location"]))   # built-in in 2.1 only: free in 2.0
     extpool = [pool["extension"][3], EXTDEF + new_uuid(rng)]      # extension ids shared by extension_name= and CustomExtension
     pool["extension"].append(extpool[1])
     ops, regs = [], []
@@ -359,7 +362,11 @@ def gen_history(run, idx, max_regs=8):
             op["extname"] = rng.choice(extpool) if rng.random() < 0.6 else rng.choice(
                 [EXTDEF + new_uuid(rng), "x-side-ext", "", "x-nodash", EXTDEF + "1-2--3"])
         if kind in ("marking", "extension") and rng.random() < 0.6:   # (the object / observable wrappers want a list of pairs)
-            op["props_as"] = "dict"                                    # the caller hands over its own dictionary
+            op["props_as"] = "dict"
+        if rng.random() < 0.3:
+            op["call"] = "keywords"                                    # Custom*(type=..., properties=...) instead of positionally
+        if rng.random() < 0.25:
+            ops.append(gen_lookup(rng, [op], pool))                    # asked BEFORE the registration (a negative answer must not stick)                                    # the caller hands over its own dictionary
         ops.append(op)
         regs.append(op)
         if rng.random() < 0.3:                                         # ... and goes on using a properties object it passed earlier
@@ -386,7 +393,13 @@ def gen_history(run, idx, max_regs=8):
     for _ in range(rng.randrange(2, 7)):
         ops.append(gen_lookup(rng, regs, pool))
     ops.append({"op": "tables"})                                       # did any registered class table change since its registration?
-    return {"k": "history", "id": idx, "ops": ops}
+    for o in ops:
+        if o["op"] in ("parse", "parse_obs") and rng.random() < 0.3:
+            o["as_text"] = True                                        # the same data as JSON text
+    case = {"k": "history", "id": idx, "ops": ops}
+    if idx % 4 == 3:
+        case["env"] = {"TZ": rng.choice(["JST-9", "EST5EDT"]), "PYTHONHASHSEED": str(rng.randrange(1, 10000))}
+    return case
 
 
 def gen_lookup(rng, regs, pool):
